@@ -29,7 +29,7 @@ def headerWith (exts : List String) : Doc :=
   .node .headerRef { strs := [("key", "X-H")], flags := ["resolved"] }
     [("value", .node .header { flags := ["hasSchema"], nums := [("content", 0)], exts := exts } [("schema", schemaRefTo strSchema)])]
 def responseWithHeader (exts : List String) : Doc := .node .response { flags := ["hasDescription"] } [("headers", headerWith exts)]
-/-- #28 (a): `"bogus": 1` inside a response header -/
+/-- #28 (a), repaired by 78418b3: `"bogus": 1` inside a response header -/
 def d28a : Doc := root [pathItem "/p" [op [] (responseWithHeader ["bogus"])]]
 def d28aOK : Doc := root [pathItem "/p" [op [] (responseWithHeader ["x-fine"])]]
 
@@ -48,7 +48,7 @@ def dInner : Doc :=
     (.node .schema { lists := [("type", ["object"])] }
       [("properties", .node .innerSchemaRef { strs := [("key", "a")], sibs := ["bogus"], flags := ["resolved"] } [("value", strSchema)])]) []))]]
 
-/-- an example that gives `externalValue` only, under a media type with a string schema -/
+/-- repaired by 9d56ffd: an example that gives `externalValue` only, under a media type with a string schema -/
 def dExternal : Doc :=
   root [pathItem "/p" [op [] (responseWithContent (mediaType strSchema
     [("examples", .node .exampleRef { strs := [("key", "e")], flags := ["resolved"] }
@@ -62,7 +62,7 @@ def dDeepDefault : Doc :=
     (.node .schema {} [("items", .node .innerSchemaRef { flags := ["resolved"] }
         [("value", .node .schema { lists := [("type", ["integer"])], flags := ["simple"], vals := [("default", .str)] } [])])]) []))]]
 
-/-- a response header with an integer schema and the example `"x"` -/
+/-- repaired by 3a27745: a response header with an integer schema and the example `"x"` -/
 def headerWithExample (v : Val) : Doc :=
   .node .headerRef { strs := [("key", "X-H")], flags := ["resolved"] }
     [("value", .node .header { flags := ["hasSchema", "hasExample"], nums := [("content", 0)], vals := [("example", v)] }
@@ -76,5 +76,33 @@ def dHeaderExampleOK : Doc :=
 def dSecondOp : Doc :=
   root [pathItem "/r/{n}" [op [pathParam "n"] plainResponse,
     .node .operation { strs := [("key", "put")] } [("parameters", .node .parameters {} []), ("responses", okResponses plainResponse)]]]
+
+/-- a request-body media type with an object schema and one encoding object -/
+def encodingDoc (encAttrs : Attrs) (hdrs : List Doc) : Doc :=
+  root [pathItem "/p" [op [] (responseWithContent (mediaType
+    (.node .schema { lists := [("type", ["object"])], flags := ["simple"] } [])
+    [("encoding", .node .encoding encAttrs (hdrs.map (fun h => ("headers", h))))]))]]
+/-- a header of an encoding object that wrongly carries `name` -/
+def namedHeader : Doc :=
+  .node .headerRef { strs := [("key", "X-E")], flags := ["resolved"] }
+    [("value", .node .header { strs := [("name", "X")], flags := ["hasSchema"], nums := [("content", 0)] } [("schema", schemaRefTo strSchema)])]
+def fineHeader : Doc :=
+  .node .headerRef { strs := [("key", "X-E")], flags := ["resolved"] }
+    [("value", .node .header { flags := ["hasSchema"], nums := [("content", 0)] } [("schema", schemaRefTo strSchema)])]
+/-- a violation inside a header of an encoding object: `Encoding.Validate` drops the error -/
+def dEncHeader : Doc := encodingDoc { strs := [("key", "f")] } [namedHeader]
+/-- … and the failing header masks the encoding object's own violations (unsupported style, extra field) -/
+def dEncMasked : Doc := encodingDoc { strs := [("key", "f"), ("style", "matrix")], exts := ["bogus"] } [namedHeader]
+/-- repaired by 78418b3: an encoding object with an unsupported style / an extra field, headers fine -/
+def dEncStyle : Doc := encodingDoc { strs := [("key", "f"), ("style", "matrix")] } [fineHeader]
+def dEncExtra : Doc := encodingDoc { strs := [("key", "f")], exts := ["bogus"] } []
+def dEncOK : Doc := encodingDoc { strs := [("key", "f"), ("style", "deepObject")], exts := ["x-e"] } [fineHeader]
+
+/-- a header with `example` next to `examples` (mutually exclusive), schema given -/
+def dHeaderBoth : Doc :=
+  root [pathItem "/p" [op [] (.node .response { flags := ["hasDescription"] } [("headers",
+    .node .headerRef { strs := [("key", "X-H")], flags := ["resolved"] }
+      [("value", .node .header { flags := ["hasSchema", "hasExample", "hasExamples"], nums := [("content", 0)], vals := [("example", .int)] }
+        [("schema", schemaRefTo (.node .schema { lists := [("type", ["integer"])], flags := ["simple"] } []))])])])]]
 
 end KinModel.DocValidate.W
